@@ -15,6 +15,7 @@ import (
 	"encoding/base64"
 	"encoding/xml"
 	"errors"
+	"math"
 	"strconv"
 	"strings"
 	"time"
@@ -129,7 +130,14 @@ func (d *Data) UnmarshalXML(dec *xml.Decoder, start xml.StartElement) error {
 	}
 	d.CID = v.CID
 	if v.MaxAge != nil {
-		d.MaxAge = time.Duration(*v.MaxAge) * time.Second
+		// The number of seconds is the peer's: do not let it overflow the
+		// duration (a huge max-age would come out as a negative one).
+		const maxSeconds = int64(math.MaxInt64 / time.Second)
+		secs := *v.MaxAge
+		if secs > maxSeconds {
+			secs = maxSeconds
+		}
+		d.MaxAge = time.Duration(secs) * time.Second
 	}
 	d.NoCache = v.MaxAge != nil && *v.MaxAge == 0
 	d.Type = v.Type
